@@ -460,7 +460,9 @@ def _theoremopt(ctx, kids):
 @reg('inline', cls='math')
 def _inline(ctx, kids):
     n = ctx.open('inline', ())
-    ctx.w('$x_1$')
+    ctx.w('$')
+    ctx.hid()           # maths source must not appear
+    ctx.w('_1$')
     ctx.gen(('re', INLINE_RE[ctx.lang]), n)
     ctx.close()
 
@@ -468,7 +470,9 @@ def _inline(ctx, kids):
 @reg('inlineparen', cls='math')
 def _inlineparen(ctx, kids):
     n = ctx.open('inline', ())
-    ctx.w('\\(y^{2}.\\)')
+    ctx.w('\\(')
+    ctx.hid()
+    ctx.w('^{2}.\\)')
     ctx.gen(('re', INLINE_RE[ctx.lang] + '\\.'), n)
     ctx.close()
 
@@ -476,7 +480,11 @@ def _inlineparen(ctx, kids):
 @reg('display', cls='math')
 def _display(ctx, kids):
     n = ctx.open('display', WS)
-    ctx.w('\\begin{equation}a = b.\\end{equation}')
+    ctx.w('\\begin{equation}')
+    ctx.hid()
+    ctx.w(' = ')
+    ctx.hid()
+    ctx.w('.\\end{equation}')
     ctx.gen(('re', DISPLAY_RE[ctx.lang] + '\\.'), n)
     ctx.close()
 
@@ -484,7 +492,9 @@ def _display(ctx, kids):
 @reg('displaybr', cls='math')
 def _displaybr(ctx, kids):
     n = ctx.open('display', WS)
-    ctx.w('\\[c\\]')
+    ctx.w('\\[')
+    ctx.hid()
+    ctx.w('\\]')
     ctx.gen(('re', DISPLAY_RE[ctx.lang]), n)
     ctx.close()
 
